@@ -394,7 +394,7 @@ func compatCmd(a Args) {
 	for i := 0; i < n/20+2; i++ {
 		recursiveGroup(s, g)
 	}
-	for i := 0; i < n/4+8; i++ {
+	for i := 0; i < n/2+24; i++ {
 		historyGroup(s, g)
 	}
 	writeStats(a.Out, s.sink, g)
@@ -1238,6 +1238,46 @@ func historyGroup(s *compatSink, g *hx.Gen) {
 				s.finding(Finding{Prop: "C12", What: "ValidateCompatibility depends on an earlier call: the verdict for a " + side + " scope edited in place after an accepted comparison differs from a freshly built pair",
 					Schema: t, Detail: []string{"edit: " + m.what, "fresh pair: " + want, "same values after the edit: " + got + " " + gotMsg}})
 				return
+			}
+		}
+		// the same edit made INSIDE the producer's object values (their identity is kept: whoever remembers
+		// "this object was fine" by its address must look again)
+		if b := hx.Guard(func() hx.Result {
+			fresh := cloneTy(t).Build().(*schema.ScopeSchema)
+			producer.ObjectsValue, producer.RootValue = fresh.ObjectsValue, fresh.RootValue
+			return hx.Result{R: "ok"}
+		}); b.R == "ok" {
+			if v, _ := verdict(consumer, producer); v == "ok" {
+				var edited2 *schema.ScopeSchema
+				if b := hx.Guard(func() hx.Result { edited2 = cloneTy(o).Build().(*schema.ScopeSchema); return hx.Result{R: "ok"} }); b.R == "ok" {
+					for id, eo := range edited2.ObjectsValue {
+						if po, ok := producer.ObjectsValue[id]; ok {
+							po.PropertiesValue = eo.PropertiesValue
+							po.IDUnenforcedValue = eo.IDUnenforcedValue
+						} else {
+							producer.ObjectsValue[id] = eo
+						}
+					}
+					for id := range producer.ObjectsValue {
+						if _, ok := edited2.ObjectsValue[id]; !ok {
+							delete(producer.ObjectsValue, id)
+						}
+					}
+					producer.RootValue = edited2.RootValue
+					relinked := hx.Guard(func() hx.Result { producer.ApplySelf(); return hx.Result{R: "ok"} })
+					if relinked.R == "ok" {
+						want, _ := verdict(freshC, freshP)
+						got, gotMsg := verdict(consumer, producer)
+						s.stats["history:edited-inside-objects:"+want]++
+						if got != want {
+							for _, prop := range []string{"C15", "C12"} {
+								s.finding(Finding{Prop: prop, What: "the verdict for a producer whose OBJECTS were edited in place (same object values, other properties) after an accepted comparison differs from the verdict for a freshly built pair",
+									Schema: t, Detail: []string{"edit: " + m.what, "fresh pair: " + want, "same values after the edit: " + got + " " + gotMsg}})
+							}
+							return
+						}
+					}
+				}
 			}
 		}
 		// restore the producer for the next edit: it must be accepted again
